@@ -303,9 +303,11 @@ def ring_cases(ctx):
 
 
 # ------------------------------------------------------------------ (d) end-to-end with build files
-def gen_build_case(rng, ring_with_restraint=False):
+def gen_build_case(rng, ring_with_restraint=False, rw_nonunit=False):
     mts = [systems.gen_moltype(rng, 'MA', nres=rng.randint(5, 9) if ring_with_restraint else rng.randint(3, 7),
                                shape='ring' if ring_with_restraint else rng.choice(['path', 'path', 'tree', 'ring']))]
+    if rw_nonunit:
+        mts = [systems.gen_moltype(rng, 'MA', nres=rng.randint(6, 8), shape='path', resnames=['RA'] * 8)]
     if rng.random() < 0.5:
         mts.append(systems.gen_moltype(rng, 'MB', nres=rng.randint(2, 5), shape='path'))
     mols = [('MA', rng.randint(1, 2))] + ([('MB', rng.randint(1, 2))] if len(mts) > 1 else [])
@@ -322,11 +324,15 @@ def gen_build_case(rng, ring_with_restraint=False):
         kinds = ['dist'] + kinds[:1]
     if ring_with_restraint:
         kinds = ['dist']
+    if rw_nonunit:
+        kinds = ['rw']
     c = [b / 2 for b in box]
     for kind in kinds:
         resname = rng.choice(['RA', 'RB'])
         start = rng.randint(1, 3)
         stop = rng.randint(start + 1, mt['nres'] + 2)
+        if rw_nonunit:
+            resname, start, stop = 'RA', 2, mt['nres'] + 1
         mode = rng.choice(['in', 'in', 'out'])
         if kind == 'sphere':
             r = rng.uniform(2.0, 3.0) if mode == 'in' else rng.uniform(0.5, 1.5)
@@ -342,7 +348,11 @@ def gen_build_case(rng, ring_with_restraint=False):
             decl.append({'kind': 'rectangle', 'resname': resname, 'start': start, 'stop': stop, 'mode': mode, 'c': c, 'p': [round(a, 3) for a in abc], 'mols': [lo, hi]})
         elif kind == 'rw':
             nrm = [0.0, 0.0, 1.0] if rng.random() < 0.5 else [1.0, 0.0, 0.0]
-            ang = rng.choice([90.0, -90.0, 120.0, 60.0])
+            ang = rng.choice([90.0, -120.0, 120.0, 60.0])      # a negative angle below 90 degrees can never be met
+            if rw_nonunit or rng.random() < 0.3:
+                # the normal as a user writes it: any length (the declared angle is measured against its direction)
+                nrm = rng.choice([[1.0, 1.0, 0.0], [0.0, 0.0, 2.0], [1.0, 1.0, 1.0], [0.0, 3.0, 0.0], [0.5, 0.0, 0.0]])
+                ang = rng.choice([30.0, 45.0, 60.0])
             lines += ['[ rw_restriction ]', f'{resname} {start} {stop} {nrm[0]} {nrm[1]} {nrm[2]} {ang}']
             decl.append({'kind': 'rw', 'resname': resname, 'start': start, 'stop': stop, 'normal': nrm, 'angle': ang, 'mols': [lo, hi]})
         elif kind == 'dist' and (cyc or (mt['shape'] == 'path' and not cyc)):
@@ -528,9 +538,10 @@ def run(ctx):
     bcases = [c for _, c in core.corpus_cases('C07')]
     # a molecule declared cyclic that also carries a build-file distance restraint: always exercised
     bcases += [gen_build_case(ctx.rng, ring_with_restraint=True) for _ in range(ctx.n(3, 20))]
+    bcases[len(bcases) - 2:len(bcases) - 2] = [gen_build_case(ctx.rng, rw_nonunit=True) for _ in range(ctx.n(2, 12))]
     bcases += [gen_build_case(ctx.rng) for _ in range(ctx.n(12, 120))]
     if ctx.broken:
-        bcases = bcases[:3]
+        bcases = bcases[:5]
     timeouts = 0
     for case in bcases:
         if timeouts >= 2:
